@@ -9,6 +9,7 @@ import (
 	"go/token"
 	"go/types"
 	"math/big"
+	"os"
 	"sort"
 	"strings"
 
@@ -835,7 +836,7 @@ func (x *Exec) blockCanReach(a, b *ssa.BasicBlock) bool {
 // obligation's block cannot be reached (sibling branches): sound, fewer hypotheses.
 func (x *Exec) relevantHyps(ob *Obligation) []*Term {
 	hyps := x.hyps[:ob.NHyps]
-	if ob.block == nil || x.reachBlock == nil {
+	if ob.block == nil || x.reachBlock == nil || os.Getenv("GOVC_NOPRUNE") != "" {
 		return hyps
 	}
 	out := make([]*Term, 0, len(hyps))
